@@ -524,6 +524,14 @@ class BodyPartReader:
         if self._at_eof:
             return b""
 
+        if self._prev_chunk is not None:
+            # Give the window read_chunk() holds back to the stream.
+            with warnings.catch_warnings():
+                warnings.filterwarnings("ignore", category=DeprecationWarning)
+                self._content.unread_data(self._prev_chunk)
+            self._prev_chunk = None
+            self._content_eof = 0
+
         if self._unread:
             line = self._unread.popleft()
         else:
